@@ -7,6 +7,8 @@ import (
 	"errors"
 	"fmt"
 	"io"
+	"os"
+	"path/filepath"
 	"strings"
 	"time"
 
@@ -81,6 +83,7 @@ func Run(tier string) {
 		run.Distinct("scrypt+" + name)
 	}
 	pluginFailures(run, w)
+	cliLabels(run, w)
 	zeroStanzaRecipients(run, w)
 	largeHeaderRefusals(run, w)
 	randFaults(run, w)
@@ -209,6 +212,85 @@ func pluginFailures(run *vk.Run, w *world.World) {
 			run.Distinct(sig)
 		}
 	}
+}
+
+// cliLabels: the rule through the age command, where recipients come from -r and from -R files: a plugin recipient that
+// declares labels (scripted plugin) cannot share a file with a native recipient, wherever each of them is named, and two
+// recipients declaring the same labels can, wherever each of them is named.
+func cliLabels(run *vk.Run, w *world.World) {
+	dir := c16.Setup()
+	ageBin := filepath.Join(vk.BuildCLI(), "age")
+	root, err := os.MkdirTemp("", "c11cli-")
+	if err != nil {
+		vk.Infra("%v", err)
+	}
+	defer os.RemoveAll(root)
+	lab := func(l string) string {
+		s, err := c16.ScriptedRecipientString(dir, []string{"rs_ok", l, "done"})
+		if err != nil {
+			vk.Infra("%v", err)
+		}
+		return s
+	}
+	x := w.Recipient("x1").(fmt.Stringer).String()
+	type src struct {
+		how, val string // how: "r" (-r VALUE) or "R" (a recipients file holding VALUE)
+	}
+	type cmd struct {
+		name string
+		rs   []src
+		ok   bool
+	}
+	cmds := []cmd{
+		{"labelled-in-file+native-in-file", []src{{"R", lab("labels_ab") + "\n" + x}}, false},
+		{"native-in-file+labelled-in-file", []src{{"R", x + "\n" + lab("labels_ab")}}, false},
+		{"labelled-in-file+native-r", []src{{"R", lab("labels_ab")}, {"r", x}}, false},
+		{"native-r+labelled-in-file", []src{{"r", x}, {"R", lab("labels_ab")}}, false},
+		{"labelled-r+native-in-file", []src{{"r", lab("labels_ab")}, {"R", x}}, false},
+		{"labelled-r+native-r", []src{{"r", lab("labels_ab")}, {"r", x}}, false},
+		{"labelled-in-file+other-labels-in-file", []src{{"R", lab("labels_ab")}, {"R", lab("labels0")}}, false},
+		{"labelled-r+same-labels-in-file", []src{{"r", lab("labels_ab")}, {"R", lab("labels_ba")}}, true},
+		{"labelled-in-file+same-labels-r", []src{{"R", lab("labels_ba")}, {"r", lab("labels_ab")}}, true},
+		{"labelled-in-file+same-labels-in-file", []src{{"R", lab("labels_ab") + "\n" + lab("labels_ab")}}, true},
+		{"labelled-in-file-alone", []src{{"R", lab("labels_ab")}}, true},
+		{"labelled-r-alone", []src{{"r", lab("labels_ab")}}, true},
+		{"unlabelled-plugin-in-file+native-r", []src{{"R", lab("unknown")}, {"r", x}}, true},
+	}
+	vk.Parallel(len(cmds), 8, func(i int) {
+		c := cmds[i]
+		wd := filepath.Join(root, fmt.Sprint(i))
+		os.MkdirAll(wd, 0o755)
+		os.WriteFile(filepath.Join(wd, "in"), []byte("labels on the command line"), 0o600)
+		var args []string
+		for k, s := range c.rs {
+			if s.how == "r" {
+				args = append(args, "-r", s.val)
+			} else {
+				name := fmt.Sprintf("rcp%d.txt", k)
+				os.WriteFile(filepath.Join(wd, name), []byte("# recipients\n"+s.val+"\n"), 0o644)
+				args = append(args, "-R", name)
+			}
+		}
+		args = append(args, "-o", "out", "in")
+		p := vk.RunProc(60*time.Second, wd, nil, []byte{}, ageBin, args...)
+		run.Eval(1)
+		_, oerr := os.Stat(filepath.Join(wd, "out"))
+		sig := "cli:" + c.name
+		rp := map[string]interface{}{"check": "C11.cli", "case": c.name}
+		if p.TimedOut {
+			vk.Infra("age did not finish on %s", c.name)
+		}
+		switch {
+		case !c.ok && p.Exit == 0:
+			run.Violation("C11:incompatible-list-accepted:"+sig, fmt.Sprintf("age %s: recipients with different label sets shared a file (exit 0)", c.name), rp)
+		case !c.ok && oerr == nil:
+			run.Violation("C11:bytes-written-on-refusal:"+sig, fmt.Sprintf("age %s: refused (exit %d) yet the output file exists", c.name, p.Exit), rp)
+		case c.ok && p.Exit != 0:
+			run.Violation("C11:compatible-list-refused:"+sig, fmt.Sprintf("age %s: recipients with equal label sets were refused: %s", c.name, strings.TrimSpace(string(p.Stderr))), rp)
+		}
+		run.Distinct(sig)
+	})
+	run.Add("cli_label_commands", len(cmds))
 }
 
 // bigStanza is a recipient whose stanza body has n bytes (a plugin may carry that much) and which declares no labels.
